@@ -391,6 +391,17 @@ def run_history(ctx, items, plan, mode, case):
                     body = {"SYNTAX_DEFAULTS": nest(new) if kind == "palette-nested" else dict(new)}
                     body.update({acc: ConfColor(sid) for acc, sid in accessors.items()})
                     synced = mode == "global" and kind == "palette-synced"
+                    if kind == "palette-derived":
+                        # the defaults are declared in a base palette class; the class that is used derives from it
+                        # (python inheritance) and declares no defaults of its own
+                        basecls = type("VfBasePalette%d" % _UNIQ[0], (Palette,), {"SYNTAX_DEFAULTS": dict(new)})
+                        pcls = type("VfDerivedPalette%d" % _UNIQ[0], (basecls,),
+                                    {acc: ConfColor(sid) for acc, sid in accessors.items()})
+                        pcls(conf, mode == "no_color")
+                        palettes.append((pcls, accessors, False))
+                        registered |= set(batch)
+                        verify(conf, "batch%d" % bi, palettes)
+                        continue
                     if kind == "palette-child":
                         # the defaults live in a parent palette class that is never instantiated itself
                         parent = type("VfParentPalette%d" % _UNIQ[0], (Palette,), {"SYNTAX_DEFAULTS": dict(new)})
@@ -494,7 +505,7 @@ def make_plan(rng, items, mode):
     while rest:
         m = rng.randint(1, len(rest))
         batch, rest = rest[:m], rest[m:]
-        kinds = ["add", "add", "palette", "palette-nested", "palette-child", "palette-compound"] + (
+        kinds = ["add", "add", "palette", "palette-nested", "palette-child", "palette-compound", "palette-derived"] + (
             ["palette-synced"] * 3 if mode == "global" else [])
         conflicts = rng.sample(sorted(items), min(2, len(items)))
         batches.append([rng.choice(kinds), batch, conflicts])
